@@ -1,7 +1,7 @@
 # C01 - emitted bytes decode to exactly the source instruction.
 import inscheck
 
-ALL = ["rr", "ri", "rm", "mi", "seg", "acc", "stack", "shift", "unary", "imul", "misc", "noop", "lblimm", "lblmem"]
+ALL = ["rr", "ri", "rm", "mi", "seg", "acc", "stack", "shift", "unary", "imul", "misc", "noop", "lblimm", "lblmem", "ext"]
 
 
 def run(ctx):
